@@ -67,4 +67,101 @@ theorem Inv.next_rest {s : LSet} {bs : List Nat} (h : Inv s bs) (d : Dir) (c : C
     simp only [n3]
     rw [(h.rest_eq d _ n2).1, n1]
 
+/-- an operation that raises has written nothing -/
+theorem apply_raised_unchanged {s : LSet} (h : WF s) (op : Op) (hf : (apply s op).2 = false) :
+    (apply s op).1 = s := by
+  obtain ⟨bs, hi⟩ := h
+  have hp : Cursor.notStarted.pos < size s := by simpa [Cursor.pos] using hi.size_pos
+  cases op with
+  | append v =>
+    obtain ⟨_, ho, _⟩ := sim_append hi v .fwd .notStarted hp
+    simp only [apply] at hf; rw [ho] at hf; cases hf
+  | extend vs =>
+    obtain ⟨_, ho, _⟩ := sim_extend .fwd .notStarted vs hi hp
+    simp only [apply] at hf; rw [ho] at hf; cases hf
+  | insertAfter a vs =>
+    simp only [apply, insertAfter] at hf ⊢
+    cases hl : lookup s a with
+    | none => rfl
+    | some b =>
+      rw [hl] at hf
+      simp only at hf
+      obtain ⟨hb, hv⟩ := hi.lookup_spec hl
+      have hr : AncRel s bs b (some a) := Or.inr ⟨hb, by simp [vl, hv]⟩
+      obtain ⟨_, ho, _⟩ := sim_insertManyAfter .fwd .notStarted vs hi hr hp
+      rw [ho] at hf; cases hf
+  | insertBefore a vs =>
+    simp only [apply, insertBefore] at hf ⊢
+    cases hl : lookup s a with
+    | none => rfl
+    | some b =>
+      rw [hl] at hf
+      simp only at hf
+      obtain ⟨hb, hv⟩ := hi.lookup_spec hl
+      obtain ⟨l1, l2, rfl⟩ := List.append_of_mem hb
+      obtain ⟨_, ho, _⟩ := sim_insertManyAfter .fwd .notStarted vs hi (AncRel.pred hi) hp
+      rw [ho] at hf; cases hf
+  | remove v =>
+    simp only [apply] at hf ⊢
+    by_cases hm : ∃ n ∈ bs, val s n = some v
+    · obtain ⟨n, hn, hvn⟩ := hm
+      rw [hi.remove_eq hn hvn] at hf; cases hf
+    · rw [hi.remove_absent (fun b hb hv => hm ⟨b, hb, hv⟩)]
+
+/-- an operation adds only values it touches -/
+theorem mem_toList_apply {s : LSet} (h : WF s) (op : Op) {v : Nat}
+    (hv : v ∈ toList (apply s op).1) : v ∈ touched op ∨ v ∈ toList s := by
+  obtain ⟨bs, hi⟩ := h
+  have hp : Cursor.notStarted.pos < size s := by simpa [Cursor.pos] using hi.size_pos
+  obtain ⟨bs', hi', hs, _, _⟩ := sim_apply hi op .fwd .notStarted hp
+  have ok : (absSt s bs .fwd .notStarted).OK := ⟨hi.vals_nodup, acur_inRange hi .fwd .notStarted hp⟩
+  obtain ⟨_, u⟩ := Spec.apply_spec ok op
+  rw [← hs] at u
+  have r1 : (absSt (apply s op).1 bs' .fwd .notStarted).rest = toList (apply s op).1 := by
+    rw [hi'.toList_eq]; simp [Spec.St.rest, absSt, acur, Cursor.pos, posR, Spec.rest]
+  have r2 : (absSt s bs .fwd .notStarted).rest = toList s := by
+    rw [hi.toList_eq]; simp [Spec.St.rest, absSt, acur, Cursor.pos, posR, Spec.rest]
+  rw [r1, r2] at u
+  by_cases ht : v ∈ touched op
+  · exact Or.inl ht
+  · right
+    have : v ∈ untouched (touched op) (toList (apply s op).1) := by
+      simp only [untouched, List.mem_filter]; exact ⟨hv, by simpa using ht⟩
+    rw [u] at this
+    simp only [untouched, List.mem_filter] at this
+    exact this.1
+
+/-- a generator parked on a live box still yields exactly the values after (before) that box -/
+theorem Inv.rest_at_live {s : LSet} {l1 l2 : List Nat} {b : Nat} (h : Inv s (l1 ++ b :: l2)) :
+    rest s .fwd (.at b) = l2.map (vl s) ∧ rest s .rev (.at b) = l1.reverse.map (vl s) := by
+  have hlen := h.length_le
+  constructor
+  · have hl := h.hopLinks .fwd
+    have hl' : HopLinks s .fwd (b :: l2 ++ [0]) := by
+      apply HopLinks_suffix (0 :: l1)
+      simpa [seqD] using hl
+    have := drain_links h .fwd l2 (.at b) (size s + 1) (by simp) (by simpa [Cursor.pos] using hl')
+      (fun y hy => by simp [hy]) (by simp at hlen; omega)
+    simp [rest, this]
+  · have hl := h.hopLinks .rev
+    have hl' : HopLinks s .rev (b :: l1.reverse ++ [0]) := by
+      apply HopLinks_suffix (0 :: l2.reverse)
+      simpa [seqD] using hl
+    have := drain_links h .rev l1.reverse (.at b) (size s + 1) (by simp) (by simpa [Cursor.pos] using hl')
+      (fun y hy => by simp at hy; simp [hy]) (by simp at hlen ⊢; omega)
+    simp [rest, this]
+
+/-- the value of the box a generator is parked on is not among what it still yields -/
+theorem Inv.current_not_in_rest {s : LSet} {bs : List Nat} (h : Inv s bs) (d : Dir) {b x : Nat}
+    (hb : val s b = some x) : x ∉ rest s d (.at b) := by
+  have hbm : b ∈ bs := (h.isSome_iff b).1 (by simp [hb])
+  obtain ⟨l1, l2, rfl⟩ := List.append_of_mem hbm
+  have hx : vl s b = x := by simp [vl, hb]
+  have hnd := h.vals_nodup
+  rw [List.map_append, List.map_cons, hx] at hnd
+  obtain ⟨r1, r2⟩ := h.rest_at_live
+  cases d with
+  | fwd => rw [r1]; intro hm; have := List.nodup_append.1 hnd; grind
+  | rev => rw [r2]; intro hm; rw [List.map_reverse] at hm; have := List.nodup_append.1 hnd; grind
+
 end IrVerif.LinkedSet
